@@ -81,7 +81,11 @@ macro_rules! cie_edges {
 
 macro_rules! transfer_edge {
     ($l:expr, $key:literal, $F:ty, $enc:path, $dec:path, $cite:literal) => {{
-        obl!($l; concat!("c02_transfer_", $key), "C02", Tier::Quick,
+        transfer_edge!(@one $l, concat!("c02_transfer_", $key), "C02", $F, $enc, $dec, $cite);
+        transfer_edge!(@one $l, concat!("c05_float_curve_", $key), "C05", $F, $enc, $dec, $cite);
+    }};
+    (@one $l:expr, $name:expr, $prop:literal, $F:ty, $enc:path, $dec:path, $cite:literal) => {{
+        obl!($l; $name, $prop, Tier::Quick,
             concat!(stringify!($F), " transfer function equals the published curve (", $cite, ") within 1e-9 on [0,1], on both sides of the knee, in both directions"),
             [concat!("<", stringify!($F), " as FromLinear<T,T>>::from_linear"), concat!("<", stringify!($F), " as IntoLinear<T,T>>::into_linear")],
             [var("x", 0.0, 1.0)];
@@ -91,6 +95,39 @@ macro_rules! transfer_edge {
                 r.goal("encode", e.close($enc(v[0]), 1e-9));
                 let d = <$F as IntoLinear<T, T>>::into_linear(v[0]);
                 r.goal("decode", d.close($dec(v[0]), 1e-9));
+                r
+            });
+    }};
+}
+
+macro_rules! curve_laws {
+    ($l:expr, $key:literal, $F:ty) => {{
+        obl!($l; concat!("c05_curve_inverse_", $key), "C05", Tier::Quick,
+            concat!(stringify!($F), " float transfer function: decoding the encoding of x and encoding the decoding of x return x within 1e-6 on [0,1] (the published constants leave a step of that order where the segments meet)"),
+            [concat!("<", stringify!($F), " as FromLinear<T,T>>::from_linear"), concat!("<", stringify!($F), " as IntoLinear<T,T>>::into_linear")],
+            [var("x", 0.0, 1.0)];
+            |v| {
+                let mut r = Res::<B>::new();
+                let a = <$F as IntoLinear<T, T>>::into_linear(<$F as FromLinear<T, T>>::from_linear(v[0]));
+                r.goal("decode_of_encode", a.close(v[0], 1e-6));
+                let b = <$F as FromLinear<T, T>>::from_linear(<$F as IntoLinear<T, T>>::into_linear(v[0]));
+                r.goal("encode_of_decode", b.close(v[0], 1e-6));
+                r
+            });
+        obl!($l; concat!("c05_curve_monotone_", $key), "C05", Tier::Quick,
+            concat!(stringify!($F), " float transfer function: encoding and decoding are monotone on [0,1] apart from a step below 1e-6 (x <= y implies f(x) <= f(y) + 1e-6), map 0 to 0 and 1 to 1 (1e-9)"),
+            [concat!("<", stringify!($F), " as FromLinear<T,T>>::from_linear"), concat!("<", stringify!($F), " as IntoLinear<T,T>>::into_linear")],
+            [var("x", 0.0, 1.0), var("y", 0.0, 1.0)];
+            |v| {
+                let mut r = Res::<B>::new();
+                let le = v[0].le(v[1]);
+                let (ex, ey) = (<$F as FromLinear<T, T>>::from_linear(v[0]), <$F as FromLinear<T, T>>::from_linear(v[1]));
+                r.goal("encode_monotone", le.implies(ex.le(ey + T::k(1e-6))));
+                let (dx, dy) = (<$F as IntoLinear<T, T>>::into_linear(v[0]), <$F as IntoLinear<T, T>>::into_linear(v[1]));
+                r.goal("decode_monotone", le.implies(dx.le(dy + T::k(1e-6))));
+                let (z, o) = (T::k(0.0), T::k(1.0));
+                r.goal("end_points", <$F as FromLinear<T, T>>::from_linear(z).close(z, 1e-9) & <$F as FromLinear<T, T>>::from_linear(o).close(o, 1e-9)
+                    & <$F as IntoLinear<T, T>>::into_linear(z).close(z, 1e-9) & <$F as IntoLinear<T, T>>::into_linear(o).close(o, 1e-9));
                 r
             });
     }};
@@ -117,7 +154,58 @@ macro_rules! luma_edge {
     }};
 }
 
+/// Okhsl <-> Oklab interpolation layer (Ottosson, "Okhsv and Okhsl", 2021): hue and lightness are *configurations*
+/// (a concrete grid), the saturation resp. chroma is symbolic. C_mid and C_max are read back from the code at s = 0.8 and
+/// s = 1 (they fold to constants), C_0 = sqrt(1 / (1/(0.4 L)^2 + 1/(0.8 (1-L))^2)) and L = toe_inv(l) are transcribed.
+fn okhsl_grid(l: &mut Vec<Obl>) {
+    use palette::{Okhsl, Oklab as OkLab};
+    for h in [0.0, 29.0, 111.25, 142.0, 200.0, 264.0, 330.0] {
+        for li in [0.15, 0.5, 0.8, 0.95] {
+            let key = format!("h{}_l{}", h, li).replace('.', "_");
+            oblf!(l; format!("c02_okhsl_interpolation_{}", key), "C02", Tier::Quick,
+                format!("Okhsl -> Oklab at hue {} deg, lightness {} (configuration), every saturation in [0,1]: the chroma equals Ottosson's two-segment interpolation C = t k1 / (1 - k2 t) below s = 0.8 (k1 = 0.8 C_0, k2 = 1 - k1/C_mid, t = 1.25 s) and C = C_mid + t k1 / (1 - k2 t) above (k1 = 0.2 C_mid^2 1.25^2 / C_0, k2 = 1 - k1/(C_max - C_mid), t = 5 (s - 0.8)) within 1e-9, and the lightness is toe_inv(l)", h, li),
+                ["<Oklab as FromColorUnclamped<Okhsl>>", "ok_utils::toe_inv", "ok_utils::ChromaValues"],
+                [var("s", 0.0, 1.0)];
+                |v| {
+                    let mut r = Res::<B>::new();
+                    let at = |s: T| -> OkLab<T> { OkLab::from_color_unclamped(Okhsl::<T>::new(T::k(h), s, T::k(li))) };
+                    let chroma = |c: OkLab<T>| (c.a * c.a + c.b * c.b).sqrt_();
+                    let (c_mid, c_max) = (chroma(at(T::k(0.8))), chroma(at(T::k(1.0))));
+                    // toe_inv(l) = (l^2 + k1 l) / (k3 (l + k2)), k1 = 0.206, k2 = 0.03, k3 = (1 + k1)/(1 + k2)
+                    let (k1, k2) = (0.206, 0.03);
+                    let k3 = (1.0 + k1) / (1.0 + k2);
+                    let big_l = (li * li + k1 * li) / (k3 * (li + k2));
+                    let (ca, cb) = (0.4 * big_l, 0.8 * (1.0 - big_l));
+                    let c0 = T::k((1.0 / (1.0 / (ca * ca) + 1.0 / (cb * cb))).sqrt());
+                    let s = v[0];
+                    let lower = {
+                        let t = T::k(1.25) * s;
+                        let k1 = T::k(0.8) * c0;
+                        let k2 = T::k(1.0) - k1 / c_mid;
+                        t * k1 / (T::k(1.0) - k2 * t)
+                    };
+                    let upper = {
+                        let t = (s - T::k(0.8)) / T::k(0.2);
+                        let k1 = T::k(0.2) * c_mid * c_mid * T::k(1.25 * 1.25) / c0;
+                        let k2 = T::k(1.0) - k1 / (c_max - c_mid);
+                        c_mid + t * k1 / (T::k(1.0) - k2 * t)
+                    };
+                    let got = at(s);
+                    r.goal("chroma", chroma(got).close(T::ite(s.lt(T::k(0.8)), lower, upper), 1e-9));
+                    r.goal("lightness_is_toe_inv", got.l.close(T::k(big_l), 1e-9));
+                    r
+                });
+        }
+    }
+}
+
 pub fn register(l: &mut Vec<Obl>) {
+    okhsl_grid(l);
+    // pure power curves: inverse pair and monotonicity follow from the pow axioms. For the piecewise curves (sRGB, Rec OETF,
+    // ProPhoto) the same obligations need enclosures of pow at the knee constants, which are not built: their curve is
+    // decided against the standard on both sides of the knee by c02_transfer_*, the inverse property is outside the claim.
+    curve_laws!(l, "adobe", encoding::AdobeRgb);
+    curve_laws!(l, "p3_gamma", encoding::P3Gamma);
     luma_edge!(l, "srgb", encoding::Srgb, wp::D65, tf::srgb_decode, tf::srgb_encode);
     luma_edge!(l, "rec709", encoding::Rec709, wp::D65, tf::rec_decode, tf::rec_encode);
     luma_edge!(l, "rec2020", encoding::Rec2020, wp::D65, tf::rec_decode, tf::rec_encode);
